@@ -25,6 +25,14 @@ CLAIMS = {
  'C07': dict(text='Symbolic execution of the real graph-building visitor and DeclarationsGraph::sorted_ids over every directed graph on K nodes (one symbolic bit per edge) in three realisations; verdict compared with the transitive closure of the reference graph; mismatches replayed through analyze().',
              tech='SMT-guided bounded symbolic execution of rustc MIR (z3), petgraph by contract', sect='§4 C07',
              note='Kernel K1. Outside: graphs beyond the node bound, mixed realisations, alias-chain walk (K2) unless listed.'),
+ 'C11': dict(text='Symbolic execution of LspServer::handle_notification, LspProject and FileBackedProject (real HashMap-backed project) over every notification history up to the bound; parse and analysis are uninterpreted functions of the texts, '
+                  'so the solver decides that the published diagnostics are a function of the current contents only, carry the notification uri/version, and that the project holds exactly the current texts. Replayed through the real LSP binary against a fresh server.',
+             tech='SMT-guided bounded symbolic execution of rustc MIR (z3) with uninterpreted parse/analyze', sect='§4 C11',
+             note='Kernel K3 (covers K1/K2 obligations on the explored histories). Outside: JSON framing, URI conversion, equality with `check` beyond sharing FileBackedProject::semantic.'),
+ 'C12': dict(text='One-step symbolic execution of the server message loop, request and notification handlers for an arbitrary message (method symbolic, params deserialise or not, 0..2 content changes) and of diagnostic conversion for two-document diagnostics; '
+                  'solver decides exactly-one-response, no response to notifications, no panic. Replayed through the real LSP binary.',
+             tech='SMT-guided bounded symbolic execution of rustc MIR (z3); inductive one-step kernels', sect='§4 C12',
+             note='Kernels K1, K2, K2b, K4. Outside: liveness of I/O threads, process exit status after exit (lsp-server), frame syntax.'),
  'C04': dict(text='Kani/CBMC proof harnesses over the compiled ironplc-dsl numeric constructors (all FixedPoint values, real time crate) decide panic freedom; '
                   'failing checks come with concrete playback values that are replayed through the public API and through `check` of a program containing the literal.',
              tech='bounded model checking with Kani/CBMC (bit-precise, compiled code)', sect='§4 C04', kani=True,
